@@ -55,6 +55,16 @@ def _call_value(f, env, t):
     return None
 
 
+def _tuple_elem(env, p):
+    """value of `(_t.N)` when `_t` is a tuple whose element values are known"""
+    pr = p.get("p", [])
+    if len(pr) == 1 and pr[0][0] == "f":
+        v = env.get(p["l"])
+        if v is not None and v[0] == "tuple" and isinstance(pr[0][1], int) and pr[0][1] < len(v[1]):
+            return v[1][pr[0][1]]
+    return None
+
+
 def _assign_value(f, env, rv, b, i):
     """abstract value of an rvalue: ('const', bool) | ('atom', Atom, neg) | None"""
     k = rv["k"]
@@ -70,7 +80,17 @@ def _assign_value(f, env, rv, b, i):
         p = o["p"]
         if not p.get("p"):
             return env.get(p["l"])
-        return None
+        return _tuple_elem(env, p)
+    if k == "agg" and rv.get("ak") == "tuple":
+        # `match (a, b) { .. }`: remember the element values, the arms switch on `.0` / `.1`
+        vals = []
+        for o in rv["ops"]:
+            if o["k"] == "const":
+                v = str(o.get("v"))
+                vals.append(("const", True) if v in ("true", "const true") else ("const", False) if v in ("false", "const false") else None)
+            else:
+                vals.append(env.get(o["p"]["l"]) if not o["p"].get("p") else _tuple_elem(env, o["p"]))
+        return ("tuple", tuple(vals)) if any(v is not None for v in vals) else None
     if k == "agg" and rv.get("ak") == "adt" and rv.get("variant") in _TAGS and str(rv.get("adt")) in _TAGGED:
         return ("tag", rv["variant"])
     if k == "discr" and not rv["p"].get("p"):
@@ -178,12 +198,18 @@ def extract(f, target=None, max_paths=4096, start=0, stop=(), value_at=None, loo
             return run(t["t"], env, conds, onpath, hit)
         if k == "switch":
             l = op_local(t["d"])
+            if l is not None and t["d"]["k"] in ("copy", "move") and t["d"]["p"].get("p"):
+                l = None
             v = env.get(l) if l is not None else None
+            elem = False
+            if l is None and t["d"]["k"] in ("copy", "move"):
+                v = _tuple_elem(env, t["d"]["p"])
+                elem = v is not None and v[0] in ("const", "atom")
             tg = [(int(x), y) for x, y in t["targets"]]
             if v is not None and v[0] == "int":
                 nxt = dict(tg).get(v[1], t["otherwise"])
                 return run(nxt, env, conds, onpath, hit)
-            if v is not None and v[0] in ("const", "atom") and str(f.locals[l]) == "bool":
+            if v is not None and v[0] in ("const", "atom") and (elem or str(f.locals[l]) == "bool"):
                 zero = [y for x, y in tg if x == 0]
                 f_edge = zero[0] if zero else t["otherwise"]
                 ones = [y for x, y in tg if x == 1]
@@ -194,7 +220,8 @@ def extract(f, target=None, max_paths=4096, start=0, stop=(), value_at=None, loo
                 for val, edge in ((True, t_edge), (False, f_edge)):
                     # val = value of the switched local; atom value = val xor neg
                     e2 = dict(env)
-                    e2[l] = ("const", val)
+                    if l is not None:
+                        e2[l] = ("const", val)
                     run(edge, e2, conds + [(atom, val != neg)], onpath, hit)
                 return
             # a switch on something else (enum discriminant ...): opaque multi-way atom
@@ -274,12 +301,18 @@ def extract_outcomes(f, start, stop=(), targets=None, ret_label=None, max_paths=
             return run(t["t"], env, conds, onpath)
         if k == "switch":
             l = op_local(t["d"])
+            if l is not None and t["d"]["k"] in ("copy", "move") and t["d"]["p"].get("p"):
+                l = None
             v = env.get(l) if l is not None else None
+            elem = False
+            if l is None and t["d"]["k"] in ("copy", "move"):
+                v = _tuple_elem(env, t["d"]["p"])
+                elem = v is not None and v[0] in ("const", "atom")
             tg = [(int(x), y) for x, y in t["targets"]]
             if v is not None and v[0] == "int":
                 nxt = dict(tg).get(v[1], t["otherwise"])
                 return run(nxt, env, conds, onpath)
-            if v is not None and v[0] in ("const", "atom") and str(f.locals[l]) == "bool":
+            if v is not None and v[0] in ("const", "atom") and (elem or str(f.locals[l]) == "bool"):
                 zero = [y for x, y in tg if x == 0]
                 f_edge = zero[0] if zero else t["otherwise"]
                 ones = [y for x, y in tg if x == 1]
@@ -289,7 +322,8 @@ def extract_outcomes(f, start, stop=(), targets=None, ret_label=None, max_paths=
                 atom, neg = v[1], v[2]
                 for val, edge in ((True, t_edge), (False, f_edge)):
                     e2 = dict(env)
-                    e2[l] = ("const", val)
+                    if l is not None:
+                        e2[l] = ("const", val)
                     run(edge, e2, conds + [(atom, val != neg)], onpath)
                 return
             at = Atom("switch", b, "switch@bb%d" % b, [t["d"]])
